@@ -92,6 +92,8 @@ ValueCases(w) ==
            Case("range_num", F \o <<58,91>> \o s \o <<32,84,79,32,53,93>>, {F}, {w}, ""),                 \* f:[s TO 5]
            Case("range_num2", F \o <<58,123,53,32,84,79,32>> \o s \o <<125>>, {F}, {w}, ""),              \* f:{5 TO s}
            Case("list", F \o <<58,40>> \o s \o <<32,79,82,32>> \o X \o <<41>>, {F}, {w, X}, ""),
+           Case("list2", F \o <<58,40>> \o X \o <<32,79,82,32>> \o s \o <<41>>, {F}, {w, X}, ""),                       \* f:(x OR s)
+           Case("list3", F \o <<58,40>> \o X \o <<32,79,82,32,121,32,79,82,32>> \o s \o <<41>>, {F}, {w, X, <<121>>}, ""),   \* f:(x OR y OR s)
            Case("not", <<78,79,84,32>> \o F \o Colon \o s, {F}, {w}, ""),
            Case("and", F \o Colon \o s \o <<32,65,78,68,32,103,58,121>>, {F, <<103>>}, {w, <<121>>}, ""),
            Case("bare", s, {}, {w}, ""),
